@@ -10,7 +10,7 @@ import Heathcliff.Proofs.C19K
   Helper lemmas: Proofs/C19.lean.
 -/
 import Heathcliff.Proofs.C19
-import Heathcliff.Proofs.GenAppLwe
+import Heathcliff.Proofs.GenAppLwe2
 namespace HC.C19
 open HC Finset
 
@@ -262,7 +262,23 @@ theorem gen_lwe_field_trace_coeffs {R : Type} [CommRing R] (k l : Nat) (hl : l ‚
   rw [‚Üê HC.ga_fieldTracePoly_plan]
   exact field_trace_coeffs k l hl a j hj
 
+/-- `pack_lwe_ciphertexts`, leaf loop (skeleton reading: `assemble_lwe` + `divide_by_poly_modulus_degree_inplace` into slot `i` is recorded as
+    the input index, the zero ciphertext as `count`): slot `i < 2^l` receives input `brev l i` iff that index exists.  Uses the second
+    generated copy of `reverse_bits_u64`. -/
+theorem gen_lwe_pack_leaves_eq : type_of% @HC.ga_lwe_pack_leaves_eq := @HC.ga_lwe_pack_leaves_eq
+/-- ... and the model's `packLeaves` reads its inputs through exactly this plan -/
+theorem gen_lwe_pack_leaves_model : type_of% @HC.ga_packLeaves_plan := @HC.ga_packLeaves_plan
+
+/-- `pack_lwe_ciphertexts`, merge layers (skeleton reading: per butterfly the plan records odd slot, shift, even slot, Galois element; the
+    `unsafe` pointer arithmetic `rlwes.as_mut_ptr().add(offset [+ gap])` is read as the slot index): layers `0 ‚Ä¶ l‚àí1`, butterflies on the slots
+    `q¬∑2^(layer+1)` / `+ 2^layer`, shift `N >> (layer+1)`, element `2^(layer+1) + 1`; independent of `ntt_form` -/
+theorem gen_lwe_pack_merge_plan_eq : type_of% @HC.ga_lwe_pack_merge_plan_eq := @HC.ga_lwe_pack_merge_plan_eq
+/-- ... and the model's `packLayer` performs exactly that butterfly at the even slot of every plan entry -/
+theorem gen_lwe_pack_merge_model : type_of% @HC.ga_packLayer_plan := @HC.ga_packLayer_plan
+
 /-! non-vacuity of the ties: the generated fragments run -/
+example : GenApp.lwe_pack_leaves 2 3 = .ok [0, 2, 1, 3] := by rfl
+example : GenApp.lwe_pack_merge_plan 2 8 false = .ok [1, 4, 0, 3, 3, 4, 2, 3, 2, 2, 0, 5] := by rfl
 example : GenApp.lwe_pack_log 5 = .ok 3 := by rfl
 example : GenApp.lwe_field_trace_plan 1 8 = .ok [9, 5] := by rfl
 example : GenApp.lwe_extract_shift 3 8 = .ok 13 := by rfl
